@@ -1,5 +1,6 @@
 """C10 / C04 share the real-prover harness (`prove` subcommand)."""
 import json, os
+from checks import read_lines
 
 PROPERTY = "C10"
 
@@ -76,6 +77,64 @@ def sched_violations(ctx, classes):
             for v in rep["violations"] if v["class"] in classes or v["kind"] in classes], rep["evaluations"]
 
 
+def npolanes_violations(ctx):
+    """Lane-packed NPO table (recompose, D=4): real RecomposeAir::trace_to_matrix vs Model/NpoLanes.laneMatrix line by
+    line, and the honest circuit built / run / proved / verified for lane counts that do and do not divide the op count."""
+    tier, seed, work = ctx["tier"], ctx["seed"], ctx["work"]
+    ncases, nprove = (200, 14) if tier == "quick" else (6000, 150)
+    out = f"{work}/npolanes"
+    os.makedirs(out, exist_ok=True)
+    rc, o = ctx["sh"]([ctx["harness"], "npolanes", "--seed", str(seed), "--cases", str(ncases), "--prove", str(nprove), "--out", out], timeout=7200)
+    if rc != 0:
+        return [{"class": "harness-crash", "what": f"harness npolanes exited {rc}: {o[-300:]}", "replay": {}, "no_input": True}], {}
+    with open(f"{out}/npolanes.cases") as fin:
+        rc, mo = ctx["sh"]([ctx["driver_dir"] + "/p3r_driver_c11"], stdin=fin, timeout=3600)
+    open(f"{out}/npolanes.model", "w").write(mo)
+    cases = read_lines(f"{out}/npolanes.cases")
+
+    def blocks(lines):
+        bl, cur = [], None
+        for l in lines:
+            if l.startswith("h ") or l == "panic" or l == "bad-op":
+                cur = [l]; bl.append(cur)
+            elif cur is not None:
+                cur.append(l)
+        return bl
+    impl, model = blocks(read_lines(f"{out}/npolanes.impl")), blocks(read_lines(f"{out}/npolanes.model"))
+    violations, dis, hist = [], 0, {}
+    outcomes = read_lines(f"{out}/npolanes.outcomes")
+    bad_cases = {}
+    for l in outcomes:
+        head, res = l.rsplit(" -> ", 1)
+        t = dict(x.split("=", 1) for x in head.split()[2:])
+        key = "divides" if int(t["n"]) % int(t["lanes"]) == 0 else "partial-last-row"
+        hist[f"prove.{key}.{res.split(':')[0]}"] = hist.get(f"prove.{key}.{res.split(':')[0]}", 0) + 1
+        if res != "accepted":
+            bad_cases[int(head.split()[1])] = (t, res)
+    for k in range(len(cases)):
+        a = impl[k] if k < len(impl) else None
+        b = model[k] if k < len(model) else None
+        if a != b:
+            dis += 1
+            if dis <= 3:
+                # a concrete failing input if the honest circuit of this very case is no longer provable
+                t_res = bad_cases.get(k)
+                v = {"class": "model-disagreement",
+                     "what": "correspondence RecomposeAir::trace_to_matrix vs lean/P3R/Model/NpoLanes.laneMatrix no longer checks "
+                             "(theorems P3R.NpoLanes.matrix_cell / matrix_has_every_op speak about the model's layout)",
+                     "replay": {"correspondence": "RecomposeAir::trace_to_matrix", "case": cases[k][:2000], "impl": a, "model": b}}
+                if not t_res:
+                    v["no_input"] = True
+                violations.append(v)
+    for k, (t, res) in sorted(bad_cases.items())[:3]:
+        violations.append({"class": "honest-run-not-provable:npo-lanes",
+                           "what": f"an honest satisfying run of a circuit with {t['n']} recompose ops packed {t['lanes']} per row "
+                                   f"(min height {t['minh']}) is not proved/verified: {res[:160]}",
+                           "replay": {"kind": "npolanes", "n": int(t["n"]), "lanes": int(t["lanes"]), "min_height": int(t["minh"]),
+                                      "extra_alu": int(t["extra"]), "coefficients": t["vals"], "outcome": res}})
+    return violations, {"npolanes.matrix_cases": len(cases), "npolanes.disagreements": dis, "npolanes.proved": len(outcomes), **hist}
+
+
 def c10_run(ctx):
     violations, cov = prove_run(ctx, "C10", 0)
     if not ctx.get("replay"):
@@ -84,18 +143,29 @@ def c10_run(ctx):
         if cov:
             cov["evaluations"] += n
             cov["rule"] += "; plus honest scheduled ALU traces (real trace_to_matrix: packed Horner arities, lanes, separators) that the real AluAir::eval must accept"
+        v3, c3 = npolanes_violations(ctx)
+        violations += v3
+        if cov:
+            cov["evaluations"] += c3.get("npolanes.matrix_cases", 0) + c3.get("npolanes.proved", 0)
+            cov["input_distribution"] = {**cov.get("input_distribution", {}), **{k: v for k, v in c3.items()}}
+            cov["rule"] += ("; plus lane-packed recompose tables (D=4): the real main trace equals Model/NpoLanes line by line and honest "
+                            "circuits are proved and verified for lane counts that do / do not divide the op count")
     return violations, cov
 
 
 CHECK = {
-    "lean_modules": ["P3R.Props.C10", "P3R.Props.C10Full", "P3R.Props.C11Sched"],
+    "lean_modules": ["P3R.Props.C10", "P3R.Props.C10Full", "P3R.Props.C11Sched", "P3R.Props.C10Lanes"],
+    "lean_exes": ["p3r_driver_c11"],
     "theorems": ["P3R.C10.record_row_add", "P3R.C10.record_row_mul", "P3R.C10.record_row_muladd", "P3R.C10.record_row_bool",
                  "P3R.C10.honest_bus_balanced",
                  # model-level completeness: the honest trace meets both acceptance conditions of C04.accepted_sat
                  "P3R.C10.holds_rowOk", "P3R.C10.honest_rows", "P3R.C10.honest_tupleNet", "P3R.C10.honest_bus",
                  "P3R.C10.honest_accepted", "P3R.C10.run_honest_accepted",
                  # the scheduled / packed layout keeps every index's net multiplicity (proved over the schedule model of C11)
-                 "P3R.C11.schedule_preserves_bus"],
+                 "P3R.C11.schedule_preserves_bus",
+                 # lane-packed NPO main trace: the write loop of trace_to_matrix yields the op-major layout, every op present
+                 "P3R.NpoLanes.flatOps_getD", "P3R.NpoLanes.cellAt_flatOps", "P3R.NpoLanes.writeLoop_get", "P3R.NpoLanes.writeOps_getD",
+                 "P3R.NpoLanes.numRows_enough", "P3R.NpoLanes.matrix_cell", "P3R.NpoLanes.matrix_has_every_op", "P3R.NpoLanes.prep_cell"],
     "run": c10_run,
     "trusted_base": ["STARK completeness: a trace satisfying all row constraints with a balanced bus is provable (also exercised for real by every run)"],
     "assumptions": ["BabyBear D=1 circuits of primitive ops and hints; the scheduled/packed ALU layout: bus preservation is proved over the Lean schedule model (C11.schedule_preserves_bus, model tied to the real AluAir by C11's run), the main-trace layout (intermediate accumulators) is tied by C11's scheduled-trace oracle"],
@@ -105,6 +175,6 @@ MANIFEST_ENTRY = {
     "property_id": "C10", "quick_cmd": "bin/check C10 --tier quick", "thorough_cmd": "bin/check C10 --tier thorough",
     "evidence_file": "evidence/C10.json", "replay_cmd_template": "bin/check C10 --replay {path}", "engine": "lean-models",
     "technique": "Lean 4 theorems linking runner records to ALU row constraints and bus balance + real prove/verify of generated circuits",
-    "level_claimed": {"category": "proof", "text": "run_honest_accepted: a successful modelled run with satisfying inputs yields a trace whose row constraints vanish (ADD/MUL/BOOL/MUL_ADD/chained single-step HORNER, D=1) and whose WitnessChecks bus balances tuple by tuple — proved for every circuit with Horner chains and created read slots; the Horner/scheduled part is partial (finding F7) and, like real prover success, exercised by proving and verifying every generated satisfying program.", "design_ref": "4/C10"},
-    "level_note": "STARK completeness assumed and exercised; known findings F7 (Horner steps that are not chains) and F17 (unused private input) reported as KNOWN-FINDING",
+    "level_claimed": {"category": "proof", "text": "run_honest_accepted: a successful modelled run with satisfying inputs yields a trace whose row constraints vanish (ADD/MUL/BOOL/MUL_ADD/chained single-step HORNER, D=1) and whose WitnessChecks bus balances tuple by tuple — proved for every circuit with Horner chains and created read slots; the scheduled/packed part is proved over the schedule model and, like real prover success, exercised by proving and verifying every generated satisfying program.", "design_ref": "4/C10"},
+    "level_note": "STARK completeness assumed and exercised; F7 (Horner steps that are not chains) repaired in /repo (build() rejects them); known finding F17 (unused private input) reported as KNOWN-FINDING; NPO tables: recompose lane packing only (Poseidon tables have one op per row)",
 }
